@@ -111,6 +111,8 @@ type c19Case struct {
 	Methods   map[string][]string
 	Desc      string
 	Error     bool // expected: ParseDocs fails for this package
+	// File: the declaration lives in its own file of the package; Header is that file's comment before the package clause
+	File, Header string
 }
 
 // line sets used in doc comments (marker + settings + prose)
@@ -176,6 +178,19 @@ func c19Cases() (ok []c19Case, errs []c19Case) {
 				Desc:    fmt.Sprintf("form=%s pos=variables-block", form.name)})
 		}
 	}
+	// files with their own header comments: a detached file header never decides whether declarations in the file count
+	for hi, hdr := range []string{
+		"// Code generated by some-tool. DO NOT EDIT.\n",
+		"// Code generated by mockgen v1.2.3; DO NOT EDIT.\n// source: x.go\n",
+		"/* Copyright header\n   spanning lines */\n",
+		"//go:build !never\n",
+		"// goverter:converter\n// goverter:ignoreMissing\n",
+	} {
+		nm := name()
+		ok = append(ok, c19Case{Name: nm, Src: "// goverter:converter\n// goverter:skipCopySameType\ntype " + nm + " " + body + "\n", Converter: true,
+			ConvLines: []string{"converter", "skipCopySameType"}, Desc: fmt.Sprintf("form=line-space pos=file-with-header-%d", hi),
+			File: fmt.Sprintf("hdr%d.go", hi), Header: hdr})
+	}
 	// wrong kinds: each in its own package, must be an error
 	wrong := []struct{ desc, src string }{
 		{"converter marker on struct type", "// goverter:converter\ntype X struct{}\n"},
@@ -208,6 +223,10 @@ func RunC19(run *ev.Run) {
 	var b strings.Builder
 	b.WriteString("// goverter:converter detached file header comment\n\n// goverter:ignoreMissing\n\npackage lay\n\n")
 	for _, c := range okCases {
+		if c.File != "" {
+			mod.Add("lay/"+c.File, c.Header+"\npackage lay\n\n"+c.Src)
+			continue
+		}
 		b.WriteString(c.Src)
 		b.WriteString("\n")
 	}
